@@ -2927,6 +2927,12 @@ func (p *Posix) PutObject(ctx context.Context, po s3response.PutObjectInput) (s3
 			}
 		}
 
+		// the tags given with the upload; those of an earlier put go
+		err = p.PutObjectTagging(ctx, *po.Bucket, *po.Key, tags)
+		if err != nil {
+			return s3response.PutObjectOutput{}, err
+		}
+
 		// set etag attribute to signify this dir was specifically put
 		err = p.meta.StoreAttribute(nil, *po.Bucket, *po.Key, etagkey,
 			[]byte(emptyMD5))
